@@ -70,7 +70,8 @@ Fin == T.ev[NE]
 FinalVerdict(s) ==
     IF s.status = "undefined" THEN "skip:undefined:" \o s.why
     ELSE IF Fin.raised \in {"budget", "timeout", "RecursionError"} THEN "skip:impl-" \o Fin.raised
-    ELSE IF s.status = "raise" THEN (IF Fin.raised = s.why THEN "ok" ELSE "violation:expected-" \o s.why)
+    ELSE IF s.status = "raise" THEN (IF Fin.raised = (IF T.online THEN "SystemExit" ELSE s.why) THEN "ok"
+                                     ELSE "violation:expected-" \o s.why)
     ELSE IF Fin.raised # "" THEN "violation:raised-" \o Fin.raised
     ELSE IF ~MatchSeq(Fin.stack, Stk(s)) THEN "violation:final-stack"
     ELSE IF Fin.out # s.out THEN "violation:printed-text"
@@ -83,7 +84,19 @@ FinalBalance(s) ==
     ELSE IF ~("i" \in DOMAIN Fin.ctx /\ Fin.ctx.i = 0) THEN "violation:final-context"
     ELSE "ok"
 
-Emit(a, b) == PrintT(<<"V", tid, a>>) /\ PrintT(<<"W", tid, b>>)
+(* C19 (online mode) on the final observation -- observed fields only, plus the machine's
+   output when the run stayed inside the modelled domain (fv is the C01 verdict) *)
+OnlineVerdict(fv) ==
+    IF ~T.online THEN "skip"
+    ELSE IF Fin.raised \in {"budget", "timeout", "RecursionError"} THEN "skip"
+    ELSE IF Fin.host # 0 THEN "violation:host-stdout-written"
+    ELSE IF Fin.canary # 0 THEN "violation:user-text-executed-as-python"
+    ELSE IF Fin.raised \notin {"", "SystemExit"} THEN "violation:exception-propagated-" \o Fin.raised
+    ELSE IF Fin.raised = "SystemExit" /\ Fin.rec2 = 0 THEN "violation:error-not-recorded"
+    ELSE IF fv = "violation:printed-text" THEN "violation:output-record-differs"
+    ELSE "ok"
+
+Emit(a, b) == PrintT(<<"V", tid, a>>) /\ PrintT(<<"W", tid, b>>) /\ PrintT(<<"X", tid, OnlineVerdict(a)>>)
 
 ProbeStep ==
     /\ l < NE
